@@ -35,7 +35,7 @@ def load_known():
 
 def contract_oids(G):
     """obligations defined by the contract files (stable against edits of /repo)"""
-    return {oid: o for oid, o in G.obligations.items() if o['kind'] != 'call-requires' and o.get('origin') not in ('R12', 'auto-monotone-loop')}
+    return {oid: o for oid, o in G.obligations.items() if o['kind'] != 'call-requires' and o.get('origin') not in ('R12', 'auto-monotone-loop', 'auto-frame-loop')}
 
 
 def lock_table(G):
@@ -66,7 +66,7 @@ def cmd_lock(args):
             print('  ', b)
         return 2
     with open(LOCK, 'w') as f:
-        json.dump({'obligations': lock_table(G)}, f, indent=1, sort_keys=True)
+        json.dump({'obligations': lock_table(G), 'binders': {fid: g.binders for fid, g in sorted(G.fns.items()) if not g.spec.external}}, f, indent=1, sort_keys=True)
     print('locked %d contract obligations (%d call-site obligations are counted per run)' % (
         len(contract_oids(G)), len(G.obligations) - len(contract_oids(G))))
     return 0
@@ -161,7 +161,7 @@ def check_property(pid, tier, seed, shared=None):
             print('UNDECIDED: %s has obligations in %s, whose body is outside the verifier subset in this tree' % (pid, hit))
             return 2
     mine = {oid: o for oid, o in G.obligations.items() if pid in o['tags']}
-    mine_contract = {oid for oid, o in mine.items() if o['kind'] != 'call-requires' and o.get('origin') not in ('R12', 'auto-monotone-loop')}
+    mine_contract = {oid for oid, o in mine.items() if o['kind'] != 'call-requires' and o.get('origin') not in ('R12', 'auto-monotone-loop', 'auto-frame-loop')}
     locked = {oid for oid, tags in lock.items() if pid in tags}
     if not mine:
         print('UNDECIDED: no obligation carries property %s (vacuous check)' % pid)
